@@ -938,8 +938,8 @@ func (c *libCtx) initialized(mi *msgInfo, v, other *V) {
 			ed := uo.Unmarshal(partialEnc, td)
 			o.count("unmarshal_partial=" + tf(uo.AllowPartial) + "_discard=" + tf(uo.DiscardUnknown) + "_" + map[bool]string{true: "ok", false: "rejects"}[ed == nil])
 			if pan == nil && eg == nil && ed != nil && uo.DiscardUnknown && !uo.AllowPartial && !init {
-				// the generated Unmarshal echoes its input flags into UnmarshalOutput.Flags: the input bit UnmarshalDiscardUnknown is
-				// the output bit UnmarshalInitialized, so the library skips its required-fields check (KNOWN_FINDINGS)
+				// D19 (fixed in /repo ca6179d): the generated Unmarshal echoed its input flags into UnmarshalOutput.Flags; the input
+				// bit UnmarshalDiscardUnknown is the output bit UnmarshalInitialized, so the library skipped its required-fields check
 				key = "lib/unmarshal-discardunknown-skips-required-check/" + id
 			}
 			if pan != nil || (eg == nil) != (ed == nil) {
